@@ -23,6 +23,7 @@ package rangeplugin
 
 // state invariant of a PluginState (established by setupRange, preserved by Handler4)
 //@ pure func rinv(p *PluginState) bool = p != nil && p.Recordsv4 != nil && p.allocator != nil && p.leasedb != nil && \
+//@     0 <= p.LeaseTime && p.LeaseTime < 4294967296000000000 && \
 //@     (forall k string: has(p.Recordsv4, k) ==> (p.Recordsv4[k] != nil && allocated(p.Recordsv4[k]))) && rdistinct(p) && rbound(p)
 
 // Ghost view of the lease database (C03): one row per hardware-address text. saveIPAddress replaces
@@ -68,7 +69,7 @@ package rangeplugin
 //@ func setupRange
 //@   modifies everything
 // (opening the database and loading the rows cannot reach the allocator just created)
-//@   preserves elems(ipRangeStart), elems(ipRangeEnd), p.allocator, p.leasedb, alloc_ok, outst(p.allocator), poollo(p.allocator), poolhi(p.allocator), v4pool(p.allocator)
+//@   preserves elems(ipRangeStart), elems(ipRangeEnd), p.allocator, p.leasedb, p.LeaseTime, alloc_ok, outst(p.allocator), poollo(p.allocator), poolhi(p.allocator), v4pool(p.allocator)
 //@   ensures[C02,C03:start-up-re-marks-every-stored-lease] ret1 == nil ==> (ret0 != nil && alloc_ok - old(alloc_ok) == len(p.Recordsv4))
 //@   ensures[C02,internal:pool-is-the-configured-range] ret1 == nil ==> (poollo(p.allocator) == zext(128, v4of(ipRangeStart)) && poolhi(p.allocator) == zext(128, v4of(ipRangeEnd)))
 //@   loop 1: invariant p.allocator != nil
